@@ -15,7 +15,7 @@ from esrally.driver import driver
 from esrally.driver import runner as _runner_mod
 
 from harness import actors, c01
-from harness.common import StubCfg, concrete
+from harness.common import accessor, StubCfg, concrete
 from symx import core
 from symx.core import choose, fresh_bool, fresh_int, fresh_real, observe, shadowed
 from symx.explore import Harness
@@ -326,7 +326,7 @@ def drain_interleaving(sl):
             sm.add(TASK, 0, metrics.SampleType.Normal, {"ghost": i + 1}, 1.0, 2.0, 0.1, 0.1, 0.1, None, 1, "docs", 1.0, 0.5)
         return sm
 
-    code = driver.Sampler.samples.fget.__code__
+    code = accessor(driver.Sampler.samples).__code__
 
     def run(sm, k):
         state = {"n": 0, "done": False}
@@ -834,9 +834,9 @@ def adapter_wiring(sl):
                 and smp.operation_name == x.task.operation.name)
 
 
-READS = [driver.Sampler.add, driver.Sampler.samples.fget, driver.Worker.send_samples, driver.Worker.drive, driver.Worker.receiveMsg_WakeupMessage,
+READS = [driver.Sampler.add, accessor(driver.Sampler.samples), driver.Worker.send_samples, driver.Worker.drive, driver.Worker.receiveMsg_WakeupMessage,
          driver.DriverActor.receiveMsg_UpdateSamples, driver.Driver.update_samples, driver.Driver.post_process_samples, driver.Driver.joinpoint_reached,
-         driver.Driver.move_to_next_task, driver.SamplePostprocessor.__call__, driver.Sample.dependent_timings.fget, metrics.InMemoryMetricsStore._add,
+         driver.Driver.move_to_next_task, driver.SamplePostprocessor.__call__, accessor(driver.Sample.dependent_timings), metrics.InMemoryMetricsStore._add,
          metrics.InMemoryMetricsStore.to_externalizable, metrics.MetricsStore.bulk_add, metrics.MetricsStore.put_value_cluster_level,
          racecontrol.BenchmarkCoordinator.on_task_finished, racecontrol.BenchmarkCoordinator.on_benchmark_complete]
 STUBS = ["pickle/zlib round trip inside esrally.metrics replaced by identity on symbolic paths (pickle fidelity trusted)",
@@ -862,15 +862,15 @@ HARNESSES = [
                     "downsample factor": "1..3", "queue size": "1..3 (or large)", "stages": EVENTS, "sample values": "symbolic reals > 0"},
             real_valued=True, doc="every single stage conserves samples: each ghost id in exactly one place, stored samples have exactly their records"),
 ]
-HARNESSES.append(Harness("drain_interleaving", drain_interleaving, "bounded-exhaustive", lambda tier: [{}], reads=[driver.Sampler.samples.fget, driver.Sampler.add],
+HARNESSES.append(Harness("drain_interleaving", drain_interleaving, "bounded-exhaustive", lambda tier: [{}], reads=[accessor(driver.Sampler.samples), driver.Sampler.add],
                          stubs=["producer thread = an add() injected by sys.settrace at a line event inside Sampler.samples"],
                          bounds={"samples before": "0..2", "injection point": "every line event of the drain"},
                          doc="drain vs. concurrent add at statement granularity"))
-HARNESSES.append(Harness("add_interleaving", add_interleaving, "bounded-exhaustive", lambda tier: [{}], reads=[driver.Sampler.samples.fget, driver.Sampler.add],
+HARNESSES.append(Harness("add_interleaving", add_interleaving, "bounded-exhaustive", lambda tier: [{}], reads=[accessor(driver.Sampler.samples), driver.Sampler.add],
                          stubs=["consumer thread = a drain injected by sys.settrace at a line event inside Sampler.add / Sample.__init__"],
                          bounds={"samples before": "0..2", "injection point": "every line event of the add in esrally/driver/driver.py"},
                          doc="add vs. concurrent drain at statement granularity"))
-HARNESSES.append(Harness("send_samples_sizes", send_samples_sizes, "bounded-exhaustive", lambda tier: [{}], reads=[driver.Worker.send_samples, driver.Sampler.samples.fget],
+HARNESSES.append(Harness("send_samples_sizes", send_samples_sizes, "bounded-exhaustive", lambda tier: [{}], reads=[driver.Worker.send_samples, accessor(driver.Sampler.samples)],
                          stubs=["fake actor runtime (messages recorded)", "samples are plain integers (only identity and order matter)"],
                          bounds={"drain sizes": "0, every 2^k and 2^k +- 1 up to 2^17, 49157, 100000"}, doc="shipping a drain of any size: exactly once, in order"))
 HARNESSES.append(Harness("request_in_flight_at_completion", _c04_complete_during_wait, "symbolic",
@@ -879,18 +879,18 @@ HARNESSES.append(Harness("request_in_flight_at_completion", _c04_complete_during
                          real_valued=True, bounds={"requests": "<=2", "completion": "the parent element may be completed by another client during any throttle wait"},
                          doc="a request executed while the parent element is being completed is still recorded"))
 HARNESSES.append(Harness("adapter_wiring", adapter_wiring, "bounded-exhaustive", lambda tier: [{}],
-                         reads=[actors.REAL["AsyncIoAdapter"].run, driver.schedule_for, driver.AsyncExecutor.__call__, driver.Sampler.add, driver.Allocator.allocations.fget],
+                         reads=[actors.REAL["AsyncIoAdapter"].run, driver.schedule_for, driver.AsyncExecutor.__call__, driver.Sampler.add, accessor(driver.Allocator.allocations)],
                          stubs=["EsClientFactory (client object remembering its client id)", "track.operation_parameters", "runner registry (stub runner reporting which client object it was given)"],
                          assumptions=["runs on a real event loop and the real clock (nothing symbolic: a finite family of allocation matrices)"],
                          bounds={"parallel element": "1..3 single-client sub-tasks on 1..2 clients (over-committed when sub-tasks > clients)", "iterations": "1..2",
                                  "worker's first client id": "0 or 4"},
                          doc="client id, task and operation of every sample through the real AsyncIoAdapter"))
 HARNESSES.append(Harness("queue_full_then_drained", _c04_queue_full, "bounded-exhaustive", lambda tier: [{"size": n} for n in (1, 2, 4)],
-                         reads=[driver.Sampler.add, driver.Sampler.samples.fget], stubs=["harness shared with C04 queue_full"],
+                         reads=[driver.Sampler.add, accessor(driver.Sampler.samples)], stubs=["harness shared with C04 queue_full"],
                          bounds={"queue size": "1, 2, 4", "sequence": "overflow, drain, overflow, drain, fill, drain"},
                          doc="only a full queue reduces the number of records: a drained queue records again"))
 HARNESSES.append(Harness("composite_sub_requests", _c18_composite_streams, "symbolic", lambda tier: [{"max_connections": m} for m in (1, 2, 16)],
-                         reads=[_runner_mod.Composite.__call__, _runner_mod.Composite.run_stream, driver.Sample.dependent_timings.fget],
+                         reads=[_runner_mod.Composite.__call__, _runner_mod.Composite.run_stream, accessor(driver.Sample.dependent_timings)],
                          stubs=["sub-runners are gated stubs, clock symbolic (harness shared with C18 composite_streams)"], real_valued=True,
                          bounds={"request structure": "two concurrent streams followed by a plain request on the same level; every order of their wire events"},
                          doc="every executed sub-request of a composite operation yields one dependent timing (-> one service_time record), also for "
